@@ -43,7 +43,8 @@ META = {
             "twin instances on long histories, F saving and finalizing after every step (plain instance + public "
             "finalizeBlocks(), loaded instance with automatic finalization, lazy saves, finalizeBlocks() with unsaved blocks "
             "on the active chain and right after an unsaved deep switch so that the requested and the actually "
-            "finalized block differ), N never "
+            "finalized block differ; and `drought` histories under a small VBK window where VBK context runs far ahead "
+            "of the last BTC reference and VTBs arrive late for old VBK blocks), N never "
             "finalizing: equal answers of acceptBlockHeader/acceptBlock/setState/comparePopScore/getPopPayout for "
             "every candidate descending from F's final block, refusal of every candidate forking below it, monotone "
             "final block, equal state of the retained part of all three trees; finalizeBlocks of the extracted model "
@@ -57,6 +58,9 @@ META = {
     "technique": "Coq proof (tree model) + extraction-based correspondence + twin-instance differential oracle",
 }
 
+# "drought" histories: small VBK window, VBK context far ahead of the last BTC reference, late VTBs
+CFG_DROUGHT = {"alt_ki": 3, "alt_settle": 4, "alt_preserve": 12, "alt_maxreorg": 8, "payout_delay": 4, "payout_avg": 2,
+               "vbk_settle": 10, "vbk_preserve": 10, "vbk_maxreorg": 20, "vbk_ki": 3}
 CFG = {"alt_ki": 3, "alt_settle": 4, "alt_preserve": 12, "alt_maxreorg": 8, "payout_delay": 4, "payout_avg": 2,
        "vbk_settle": 10, "vbk_preserve": 10, "vbk_maxreorg": 60, "vbk_ki": 3}
 
@@ -324,9 +328,9 @@ def run(ctx):
     # (mode, save_every, histories, steps)
     # save_every 90 (about 15 chain blocks > alt_preserve): finalization then jumps by more than the preserved window
     # in one call, so blocks are deallocated that were never marked final before (fix 057feaed)
-    plan = [("fin", 1, 4, 110), ("loaded", 1, 4, 110), ("loaded", 3, 3, 110), ("fin", 4, 2, 110), ("fin", 90, 2, 150), ("finx", 45, 2, 110), ("finy", 3, 3, 130)] if quick else \
+    plan = [("fin", 1, 4, 110), ("loaded", 1, 4, 110), ("loaded", 3, 3, 110), ("fin", 4, 2, 110), ("fin", 90, 2, 150), ("finx", 45, 2, 110), ("finy", 3, 3, 130), ("drought", 1, 2, 70)] if quick else \
            [("fin", 1, 40, 160), ("loaded", 1, 40, 160), ("loaded", 3, 30, 160), ("fin", 4, 20, 160), ("loaded", 7, 20, 200),
-            ("fin", 90, 30, 200), ("fin", 16, 10, 200), ("finx", 45, 30, 160), ("finx", 20, 20, 160), ("finy", 3, 40, 200)]
+            ("fin", 90, 30, 200), ("fin", 16, 10, 200), ("finx", 45, 30, 160), ("finx", 20, 20, 160), ("finy", 3, 40, 200), ("drought", 1, 30, 110), ("drought", 3, 15, 110)]
     evaluations = 0
     hno = 0
     found = False
@@ -334,10 +338,15 @@ def run(ctx):
         hs_ = []
         for _ in range(count):
             hno += 1
-            g, ops = S.gen_twin(ctx.rng.fork(), CFG, steps, macro=(mode == "finy"))
+            if mode == "drought":
+                g, ops = S.gen_twin_drought(ctx.rng.fork(), CFG_DROUGHT, steps)
+            else:
+                g, ops = S.gen_twin(ctx.rng.fork(), CFG, steps, macro=(mode == "finy"))
             hs_.append((hno, (g, ops)))
             stats["steps"] += len(ops)
-        sc = build_script(hs_, mode, save_every, corr_every=(2 if mode == "fin" else (3 if mode == "finx" else 0)))
+        cfg_h = CFG_DROUGHT if mode == "drought" else CFG
+        emode = "fin" if mode == "drought" else mode
+        sc = build_script(hs_, emode, save_every, corr_every=(2 if emode == "fin" else (3 if mode == "finx" else 0)))
         rc, res, orc, err = run_script(binary, sc, ctx.work, "twin_%s_%d.txt" % (mode, save_every))
         crashed_h = None
         if rc != 0:
@@ -351,12 +360,12 @@ def run(ctx):
         fails = failures(sc, res, orc, stats)
         if crashed_h is not None:
             g_, ops_ = dict(hs_)[crashed_h]
-            f1, err1 = one_case(binary, ctx.work, CFG, list(g_.lines), ops_, mode, save_every, "crash")
+            f1, err1 = one_case(binary, ctx.work, cfg_h, list(g_.lines), ops_, emode, save_every, "crash")
             if f1:
                 fails[crashed_h] = f1
             else:
                 ctx.broken.append("runner: h_store rc=%d %s" % (rc, err[-300:]))
-        if okm and mode in ("fin", "finx", "finy"):
+        if okm and mode in ("fin", "finx", "finy", "drought"):
             # model/implementation disagreement on finalizeBlocks: the model is not the specification, so look for a
             # concrete failing input first (the twin oracle of the same history), otherwise name the correspondence
             cbad = correspondence(ctx, model, sc, res, dict(hs_), stats)
@@ -367,14 +376,14 @@ def run(ctx):
             stats["histories_with_dangling_backpointers"] += 1
             g, ops = dict(hs_)[h]
             # known finding: after ALT/VBK deallocation raw endorsement back pointers dangle (saveTree dereferences them)
-            ctx.violation({"kind": "ops", "cfg": CFG, "registry": list(g.lines), "ops": [list(o) for o in ops],
-                           "mode": mode, "save_every": save_every, "what": text}, key=DANGLING)
+            ctx.violation({"kind": "ops", "cfg": cfg_h, "registry": list(g.lines), "ops": [list(o) for o in ops],
+                           "mode": emode, "save_every": save_every, "what": text}, key=DANGLING)
         evaluations += count
         stats["mode_%s_save_every_%d" % (mode, save_every)] += count
         byno = dict(hs_)
         for h, (pos, text) in sorted(fails.items())[:2]:
             g, ops = byno[h]
-            report(ctx, binary, CFG, list(g.lines), ops, mode, save_every, pos, text)
+            report(ctx, binary, cfg_h, list(g.lines), ops, emode, save_every, pos, text)
             found = True
         if found:
             break
